@@ -201,6 +201,26 @@ pub fn spec(id: &str) -> Option<Spec> {
             worker_timeout_s: |t| t.pick(1500, 4 * 3600),
             rayon_threads: 16,
         },
+        "C11" => Spec {
+            id: "C11",
+            level: "exploration",
+            rule: "Texts: every .cairo file of the repo that parses without diagnostics, in original form and as seeded \
+                   layout mutants (inter-token whitespace re-rolled or squeezed, uniquely numbered comments injected at \
+                   token boundaries and after tokens, identifiers consistently renamed to 2- or 40-character names, \
+                   trailing commas dropped). Configurations: the default one, one with sorting and merging off, and \
+                   random points of {tab 2|4|8} x {width 20|40|80|100|120} x sort x merge x allow-duplicate-uses x \
+                   tuple/array/macro breaking. Oracle per (text, config): output parses without diagnostics; \
+                   format(format(t)) == format(t); comments preserved (ordered when sorting/merging off, as a multiset \
+                   otherwise); code tokens equal modulo commas before a closing delimiter (sorting/merging off), or \
+                   tokens outside use items and `mod x;` declarations equal + same multiset of mod declarations + same \
+                   set of expanded imported paths (on). Non-trivial = distinct (config, text) fully evaluated.",
+            floor: |t| t.pick(1500, 30_000),
+            shards: |_| 16,
+            crash_is_violation: false,
+            assumptions: &["token and comment extraction uses the repo's own lexer/parser on both sides of the comparison"],
+            worker_timeout_s: |t| t.pick(1200, 4 * 3600),
+            rayon_threads: 1,
+        },
         _ => return None,
     })
 }
@@ -219,6 +239,7 @@ pub fn worker(id: &str, ctx: &mut Ctx) {
         "C10" => crate::frontend::c10_worker(ctx),
         "C02" | "C04" | "C17" => crate::execchecks::exec_worker(ctx, id),
         "C14" | "C15" => crate::sierra_mut::sierra_worker(ctx, id),
+        "C11" => crate::fmtchecks::c11_worker(ctx),
         "C16" => crate::casm_ref::c16_worker(ctx),
         "C18" => crate::serde_checks::c18_worker(ctx),
         "C19" => crate::classes::c19_worker(ctx),
@@ -233,6 +254,7 @@ pub fn replay(id: &str, case: &Value) -> Result<Option<String>, String> {
         "C10" => crate::frontend::c10_replay(case),
         "C02" | "C04" | "C17" => crate::execchecks::exec_replay(id, case),
         "C14" | "C15" => crate::sierra_mut::sierra_replay(id, case),
+        "C11" => crate::fmtchecks::c11_replay(case),
         "C16" => crate::casm_ref::c16_replay(case),
         "C18" => crate::serde_checks::c18_replay(case),
         "C19" => crate::classes::c19_replay(case),
